@@ -184,6 +184,9 @@ class EEMSWrite(SameArrayShapeMixin, Command):
                         if ncattr != "_FillValue":
                             out_dimension_variable.setncattr(ncattr, in_dimension_variable.getncattr(ncattr))
 
+                    # The values are copied as they are stored (not masked by a valid range, nor unpacked and packed again)
+                    in_dimension_variable.set_auto_maskandscale(False)
+                    out_dimension_variable.set_auto_maskandscale(False)
                     out_dimension_variable[:] = in_dimension_variable[:]
 
                 # Discover CRS metadata (ESRI and CF)
@@ -203,11 +206,15 @@ class EEMSWrite(SameArrayShapeMixin, Command):
                                         dataset.createDimension(dimension, dim_dataset.dimensions[dimension].size)
 
                                 grid_mapping_out = dataset.createVariable(
-                                    grid_mapping, grid_mapping_in.dtype, grid_mapping_in.dimensions
+                                    grid_mapping,
+                                    grid_mapping_in.dtype,
+                                    grid_mapping_in.dimensions,
+                                    fill_value=getattr(grid_mapping_in, "_FillValue", None),
                                 )
 
                                 for ncattr in grid_mapping_in.ncattrs():
-                                    grid_mapping_out.setncattr(ncattr, grid_mapping_in.getncattr(ncattr))
+                                    if ncattr != "_FillValue":
+                                        grid_mapping_out.setncattr(ncattr, grid_mapping_in.getncattr(ncattr))
 
                         break
 
